@@ -227,6 +227,38 @@ func c05Pipeline(st []gstage, ren map[string]string) (obs string, other string) 
 	return observeGraph(cfg.Pipelines["p"], canonNames, ren), ""
 }
 
+// named stages whose tasks carry the names of OTHER stages of the same pipeline (stage "build" runs the task
+// "package", stage "package" runs the task "build", ...): a name in depends_on is a stage name, never a task name
+func c05PipelineCross(st []gstage) (obs string, other string) {
+	names := allNames(st)
+	tasks := map[string]interface{}{}
+	for _, n := range names {
+		tasks[n] = map[string]interface{}{"command": []interface{}{"true"}}
+	}
+	taskOf := map[string]string{}
+	for i, n := range names {
+		taskOf[n] = names[(i+1)%len(names)]
+	}
+	var stages []interface{}
+	for _, s := range st {
+		deps := make([]interface{}, len(s.deps))
+		for i, d := range s.deps {
+			deps[i] = d
+		}
+		stages = append(stages, map[string]interface{}{"name": s.name, "task": taskOf[s.name], "depends_on": deps})
+	}
+	raw := map[string]interface{}{"tasks": tasks, "pipelines": map[string]interface{}{"p": stages}}
+	cl := verifhooks.NewConfigLoader(verifhooks.NewConfig())
+	cfg, err := cl.VerifBuildRaw(raw, "")
+	if err != nil {
+		if errors.Is(err, scheduler.ErrCycleDetected) {
+			return "err", ""
+		}
+		return "err", "non-cycle error: " + err.Error()
+	}
+	return observeGraph(cfg.Pipelines["p"], names, nil), ""
+}
+
 // every name used in a depends_on is a declared stage (the pipeline path rejects dangling names)
 func allDeclared(st []gstage) bool {
 	d := map[string]bool{}
@@ -257,6 +289,8 @@ func c05CaseRen(c *Collector, st []gstage, via string, tag string, ren map[strin
 	var obs, other string
 	if via == "pipeline-unnamed" {
 		obs, other = c05PipelineUnnamed(st)
+	} else if via == "pipeline-cross" {
+		obs, other = c05PipelineCross(st)
 	} else if via == "pipeline" {
 		obs, other = c05Pipeline(st, ren)
 	} else {
@@ -309,6 +343,7 @@ func runC05(c *Collector, tier string, seed int64) {
 				c05Case(c, st, "pipeline", "exh<=3")
 				if n >= 2 && allDeclared(st) {
 					c05Case(c, st, "pipeline-unnamed", "exh<=3")
+					c05Case(c, st, "pipeline-cross", "exh<=3")
 				}
 			}
 		}
@@ -353,7 +388,9 @@ func runC05(c *Collector, tier string, seed int64) {
 		for k, p := range ps {
 			st := stagesFromMask(names, 4, mask, p, rng)
 			work = append(work, st)
-			if k == 1 && mask%16 == int(seed%16+16)%16 {
+			if k == 2 && mask%16 == int(seed%16+16)%16 && allDeclared(st) {
+				vias = append(vias, "pipeline-cross")
+			} else if k == 1 && mask%16 == int(seed%16+16)%16 {
 				vias = append(vias, "pipeline-unnamed")
 			} else if k == 0 && (tier == "thorough" || mask%4 == int(seed%4+4)%4) {
 				vias = append(vias, "pipeline")
